@@ -86,7 +86,7 @@ func genDoc(r *fw.Rand, format string, big bool) corpusDoc {
 		m := stlGenModel(r, nil)
 		d.Data = stlEncodeDoc(m, r)
 	case "teletext":
-		s := ttxGenStream(r)
+		s := ttxGenStreamMode(r, r.Bool()) // every other stream: tables exactly once, PID to be found (the reader then reads the stream twice)
 		d.Data = s.data
 		d.Read = corpusReader(format, s.opts)
 	}
@@ -179,11 +179,17 @@ func richSubtitles(r *fw.Rand) *astisub.Subtitles {
 		mnc := 38
 		md := &astisub.Metadata{Title: fw.Pick(r, []string{"T", "T", "A title that is a good deal longer than thirty-two bytes", "Épisode n° 12 «été» — l'intégrale restaurée"}), Language: fw.Pick(r, []string{"", "english", "french"}), TTMLCopyright: "C", Comments: []string{"c1"}, SSAScriptType: fw.Pick(r, []string{"v4.00", "v4.00+", ""}),
 			Framerate: fw.Pick(r, []int{0, 25, 30}), STLDisplayStandardCode: fw.Pick(r, []string{"", "0", "1"}), STLMaximumNumberOfDisplayableCharactersInAnyTextRow: &mnc}
-		switch r.Intn(3) {
+		switch r.Intn(4) {
 		case 0:
 			md.STLCreationDate, md.STLRevisionDate = &cd, &cd
 		case 1:
 			md.STLCreationDate = &cd
+		case 2:
+			// dates supplied, one of them the zero date (what the STL reader returns for a blank date field)
+			md.STLCreationDate, md.STLRevisionDate = &cd, &time.Time{}
+			if r.Bool() {
+				md.STLCreationDate, md.STLRevisionDate = md.STLRevisionDate, md.STLCreationDate
+			}
 		}
 		if r.Bool() {
 			md.WebVTTTimestampMap = &astisub.WebVTTTimestampMap{Local: time.Second, MpegTS: 900000}
@@ -208,6 +214,11 @@ func richSubtitles(r *fw.Rand) *astisub.Subtitles {
 		}
 		if nr > 0 && r.Bool() {
 			it.Region = regions[r.Intn(nr)]
+		}
+		if r.P(1, 10) {
+			// a cue that refers to a region and a style its list does not hold (taken over from another list)
+			it.Region = &astisub.Region{ID: "elsewhere", InlineStyle: &astisub.StyleAttributes{WebVTTWidth: "30%"}}
+			it.Style = &astisub.Style{ID: "elsewhere", InlineStyle: &astisub.StyleAttributes{SSAFontName: "X"}}
 		}
 		for l := 0; l < r.Range(1, 2); l++ {
 			line := astisub.Line{}
